@@ -604,6 +604,15 @@ pub fn gen_contents_basic(r: &mut Rng, sc: &mut Scenario, n: usize, allow_invali
     }
 }
 
+/// length of a caller-provided search buffer: mostly around the usual result counts, sometimes far above
+fn buflen(r: &mut Rng) -> usize {
+    match r.below(24) {
+        0 => 6 + r.usize(40),
+        1 => [64usize, 127, 128, 255, 256, 257, 1000, 4096][r.usize(8)],
+        _ => r.usize(6),
+    }
+}
+
 /// printing style of a rule: the five layout bits, sometimes with explicitly signed rule times
 pub fn gen_style(r: &mut Rng) -> u8 {
     let base = r.below(32) as u8;
@@ -1232,7 +1241,7 @@ pub fn gen_c17(seed: u64) -> Scenario {
         for _ in 0..2 + r.usize(3) {
             let t = crate::spec::PINGPONG_T0 + (n as i64) / 2 + r.range(-3, 3);
             if let Some(f) = fields_at(t, if r.chance(1, 2) { 0 } else { d as i64 / 2 }, 0) {
-                ops.push(Op::FindN { z: ZRef::P(5), f, n: [0usize, 1, 3, 5][r.usize(4)], buf: r.usize(2) });
+                ops.push(Op::FindN { z: ZRef::P(5), f, n: [0usize, 1, 3, 5, 17, 255, 256, 257, 259, 260, 261, 262, 1000, 65_535, 65_536, 65_537, 70_001, 140_003][r.usize(18)], buf: r.usize(2) });
             }
         }
     }
@@ -1254,7 +1263,7 @@ pub fn gen_c17(seed: u64) -> Scenario {
         };
         let buf = r.usize(2);
         match r.below(10) {
-            0 => ops.push(Op::Resize { buf, n: r.usize(6) }),
+            0 => ops.push(Op::Resize { buf, n: buflen(&mut r) }),
             1 => ops.push(Op::Find { z, f }),
             2 | 3 | 4 => {
                 // at the zone's own transitions (works for real zones too)
@@ -1265,9 +1274,9 @@ pub fn gen_c17(seed: u64) -> Scenario {
                     3 => r.range(-100, 100),
                     _ => r.range(-90000, 90000),
                 };
-                ops.push(Op::FindAt { z, pick: r.next() >> 8, delta, n: r.usize(6), buf })
+                ops.push(Op::FindAt { z, pick: r.next() >> 8, delta, n: buflen(&mut r), buf })
             }
-            _ => ops.push(Op::FindN { z, f, n: r.usize(6), buf }),
+            _ => ops.push(Op::FindN { z, f, n: buflen(&mut r), buf }),
         }
     }
     sc.actors.push(Actor { kind: "client".into(), ops });
